@@ -1,5 +1,6 @@
 """C07 harnesses: data-marking operations as an algebra over (selector, marking) pairs, against a set model."""
 import datetime as dt
+import json
 
 import pytz
 from crosshair.core import NoTracing
@@ -33,7 +34,7 @@ def base():
         "type": "malware", "spec_version": "2.1", "id": "malware--c8d2fae5-7271-400c-b81d-931a4caf20b9",
         "created_by_ref": "identity--311b2d2d-f010-4473-83ec-1edf84858f4c",
         "created": "2017-01-01T00:00:00.000Z", "modified": "2017-01-01T00:00:00.000Z",
-        "name": "x", "is_family": False, "labels": ["a", "b"],
+        "name": "", "is_family": False, "labels": ["a", ""],              # name and labels.[1] address false-y values on purpose
         "external_references": [{"source_name": "src", "external_id": "1"}],
     }
 
@@ -52,6 +53,8 @@ def model_get(pairs, omarks, t, inh, desc, api):
 
 
 def content(o):
+    if not isinstance(o, dict):
+        o = json.loads(o.serialize())
     return {k: v for k, v in dict(o).items() if k not in ("granular_markings", "object_marking_refs", "modified")}
 
 
@@ -156,12 +159,35 @@ def apply_op(o, pairs, omarks, op, si, mi):
     return n, pairs, exp, True
 
 
-def run_seq(ops):
+RAW = [  # granular markings as parsed / hand-built content may carry them: legal, but not in the library's compressed normal form
+    [{"marking_ref": M1, "selectors": ["name", "name"]}],
+    [{"marking_ref": M1, "selectors": ["name"]}, {"marking_ref": M1, "selectors": ["name", "created"]}],
+    [{"lang": "en", "selectors": ["labels.[0]"]}, {"lang": "en", "selectors": ["labels.[0]", "labels"]}],
+    [{"marking_ref": M1, "selectors": ["created"]}, {"marking_ref": M2, "selectors": ["created"]}, {"marking_ref": M1, "selectors": ["created_by_ref", "created"]}],
+    [{"marking_ref": M2, "selectors": ["external_references.[0].source_name", "external_references.[0]"]},
+     {"marking_ref": M2, "selectors": ["external_references.[0]"]}, {"lang": "fr", "selectors": ["name"]}, {"lang": "fr", "selectors": ["name"]}],
+]
+NRAW = len(RAW)
+
+
+def start(form, raw):
+    """form 0: plain dict, 1: parsed Malware object, 2: Relationship object ('name' stands for relationship_type is not needed: it has no name,
+    so form 2 is only used with selector tables that avoid it)"""
+    d = base()
+    if raw is not None:
+        d["granular_markings"] = [dict(g, selectors=list(g["selectors"])) for g in RAW[raw]]
+    if form == 0:
+        return d
+    return stix2.parse(d, allow_custom=False)
+
+
+def run_seq(ops, form=0, raw=None):
     """ops: list of (op, selector index, marking index). Real functions vs the set model after every step."""
     saved = versioning.get_timestamp
     versioning.get_timestamp = _clock
     try:
-        o, pairs, omarks = base(), set(), set()
+        o, omarks = start(form, raw), set()
+        pairs = pairs_of(o)
         b0 = base()
         for (op, si, mi) in ops:
             before = dict(o)
@@ -176,7 +202,9 @@ def run_seq(ops):
                     return False
                 if not (stix2.utils.parse_into_datetime(n["modified"]) > stix2.utils.parse_into_datetime(before["modified"])):
                     return False
-                stix2.parse(n, allow_custom=False)   # a valid new version (raises otherwise)
+                stix2.parse(dict(n), allow_custom=False)   # a valid new version (raises otherwise)
+                if (form == 0) != isinstance(n, dict):    # dictionaries stay dictionaries, objects stay objects
+                    return False
             o = n
             if not check_queries(o, pairs, omarks):
                 return False
@@ -213,6 +241,34 @@ def seq3(o1: int, s1: int, m1: int, o2: int, s2: int, m2: int, o3: int, s3: int,
            (pick(o3, 4), (0, 1, 7)[pick(s3, 3)], (0, 2)[pick(m3, 2)])]
     with Native():
         ok = run_seq(ops)
+    V.reached()
+    return ok
+
+
+def seq_raw(raw: int, form: int, o1: int, s1: int, m1: int, o2: int, s2: int, m2: int) -> bool:
+    """
+    pre: 0 <= raw < NRAW and 0 <= form < 2 and 0 <= o1 < 4 and 0 <= s1 < NP and 0 <= m1 < 4 and 0 <= o2 < 4 and 0 <= s2 < 4 and 0 <= m2 < 2
+    pre: raw * 2 + form == PARTNO
+    pre: (not QUICK) or (1 <= o2 <= 2 and s2 <= 1 and m2 == 0)
+    post: _
+    """
+    raw, form = pick(raw, NRAW), pick(form, 2)
+    ops = [(pick(o1, 4), pick(s1, NP), pick(m1, 4)), (pick(o2, 4), (0, 3, 6, 8)[pick(s2, 4)], (0, 2)[pick(m2, 2)])]
+    with Native():
+        ok = run_seq(ops, form, raw)
+    V.reached()
+    return ok
+
+
+def seq2_objects(o1: int, s1: int, m1: int, o2: int, s2: int, m2: int) -> bool:
+    """
+    pre: 0 <= o1 < 4 and 0 <= m1 < 4 and o1 * 4 + m1 == PARTNO
+    pre: 0 <= s1 < NP and 0 <= o2 < 4 and 0 <= s2 < 5 and 0 <= m2 < 4
+    post: _
+    """
+    ops = [(pick(o1, 4), pick(s1, NP), pick(m1, 4)), (pick(o2, 4), (0, 1, 3, 7, 8)[pick(s2, 5)], pick(m2, 4))]
+    with Native():
+        ok = run_seq(ops, 1)
     V.reached()
     return ok
 
